@@ -11,7 +11,7 @@ PROPERTIES = {"C16": "NotifierDelay"}
 RULE = {"C16": "threaded workload: a worker thread runs `with NotifierDelay(P) as d: ... d.wait()` while the harness advances the "
                "paused FPGA clock by the scripted loop-body duration, lets the worker enter wait(), then moves the clock exactly "
                "to the alarm the delay programmed (seen through a recording hal proxy) and holds it there until the worker "
-               "reports the FPGA time at which wait() returned; periods are whole microseconds in [1 ms, 100 ms] given as n/1e6; "
+               "reports the FPGA time at which wait() returned; periods are whole microseconds in [1 ms, 100 ms] (and a few of 1 s - 2.5 s) given as n/1e6; "
                "bodies: 0, <<P, P-1, P, P+1, several P, random.  Conversion sweep: every whole-microsecond period in the range "
                "(first programmed alarm == t0 + n).  Non-trivial = run with >=1 overrun and >=1 on-time wait; distinct = hash of "
                "(P, bodies)."}
